@@ -1,11 +1,19 @@
 pub mod common;
 pub mod c01;
+pub mod c04;
+pub mod c05;
+pub mod c17;
+pub mod c08;
 
 use crate::run::Config;
 
 pub fn dispatch(cfg: &Config) -> i32 {
     match cfg.prop.as_str() {
         "C01" => c01::run(cfg),
+        "C04" => c04::run(cfg),
+        "C05" => c05::run(cfg),
+        "C17" => c17::run(cfg),
+        "C08" => c08::run(cfg),
         other => {
             eprintln!("[avm] no monitor for property {other}");
             2
